@@ -5,4 +5,4 @@ set -e
 cd "$(dirname "$0")/../coq"
 coq_makefile -f _CoqProject -o Makefile >/dev/null && timeout 3000 make -j16 >/dev/null
 A=""; for i in 0 1 2 3 4 5 6 7; do A="$A -admit Astro.WeekSweep$i"; done
-timeout 7200 coqchk -silent -o -Q theories Astro $A Astro.PartialTypes Astro.SinceSign Astro.SinceTimeSign Astro.OffsetOrder Astro.RoundTrip Astro.RfcProofs Astro.TzWhole Astro.TzProofs Astro.CronTotal Astro.ErrProofs Astro.MonthYears Astro.WeekFinal
+timeout 7200 coqchk -silent -o -Q theories Astro $A Astro.PartialTypes Astro.SinceSign Astro.SinceTimeSign Astro.SinceLaws Astro.OffsetOrder Astro.RoundTrip Astro.RfcProofs Astro.TzWhole Astro.TzProofs Astro.CronTotal Astro.ErrProofs Astro.MonthYears Astro.WeekFinal
